@@ -100,7 +100,9 @@ def rng_array(rng, shape):
 
 def gen(tier, seed):
     base_vars = lambda lay: {'temp': lay, 'salt': tuple(d for d in ('t', 'k', 'y', 'x', 'n') if d in lay), 'eta': tuple(d for d in lay if d != 'k'),
-                             'profile': ('t', 'k')}
+                             'profile': ('t', 'k'),
+                             # a static depth-resolved field (layer thickness): depth and the horizontal dimensions, no time
+                             'thickness': tuple(d for d in ('k', 'y', 'x', 'n') if d in lay)}
     shapes = ('stairs', 'gaps', 'dry-top', 'random')
     for positive, order, lay, shape in itertools.product(('up', 'down', None, 'DOWN'), ('shallow-to-deep', 'deep-to-shallow'), LAYOUTS, shapes):
         if tier == 'quick' and shape == 'random' and lay not in LAYOUTS[:2]:
